@@ -3,7 +3,7 @@ import RP.Model.Bits
 /-! # Model of suit-isomorphism canonicalisation (`cards/permutation.rs`, `cards/isomorphism.rs`)
 
 Cards are `4·rank + suit`; a `Hand` is a `Nat` used as a 52-bit set; an `Observation` is a pair
-`(pocket, public)`. Everything is parametrised by the deck mask `m` (`Hand::mask()`), so the
+`(pocket, board)` (`board` is the Rust field `public`, a reserved word in Lean). Everything is parametrised by the deck mask `m` (`Hand::mask()`), so the
 standard and the short-deck build are the same definitions at `RP.Gen.handMaskStd` /
 `RP.Gen.handMaskShort`.
 
@@ -13,7 +13,7 @@ Rust ↔ model
 * `Hand::size`                 ↔ `size = popW 64` (`count_ones`)
 * `Rank::lo / Rank::hi`        ↔ `lo = tzW 64 · / 4`, `hi = msbW 64 · / 4` (`63 - leading_zeros`)
 * `Hand::min_rank / max_rank`  ↔ `minRank / maxRank : Option Nat` (`None` when the hand is empty)
-* `Permutation::colex`         ↔ `colex m o s = (s, pocket∩s, public∩s)`
+* `Permutation::colex`         ↔ `colex m o s = (s, pocket∩s, board∩s)`
 * `Permutation::order`         ↔ `order`: `Ordering::then_with` chain over the keys *in the generated
                                  order* `RP.Gen.permOrderKeys`; `Option<Rank>` is compared through the
                                  order embedding `optKey` (`None ↦ 0`, `Some r ↦ r+1`, i.e. `None < Some`)
